@@ -288,6 +288,18 @@ def match_known(prop, sig, known):
     return None
 
 
+def unreproduced(v, rej, rej2, what="rejections"):
+    """Confirmation rule shared by the checks: a rejected case that is not rejected again when it is re-run on the
+    real code never becomes a verdict.  If NONE of the rejections reproduced there is no verdict at all (exit 2); if
+    some did, those decide and the lost ones are only noted in the evidence file."""
+    lost = set(rej) - set(rej2)
+    if lost and not (set(rej) & set(rej2)):
+        raise Broken("%s not reproduced on re-run: %s" % (what, sorted(lost)[:10]))
+    if lost:
+        v.notes.append("%d %s did not reproduce on re-run and were dropped (no verdict from them); %d reproduced" % (len(lost), what, len(set(rej) & set(rej2))))
+    return lost
+
+
 class Verdict:
     """Collects confirmed violations, applies known findings, writes replay
     artefacts and the evidence file, and produces the exit code."""
